@@ -2190,10 +2190,12 @@ func (a *align) CountDifferences() (alldiffs []string, diffs []map[string]int) {
 	var i, l, count int
 
 	alldiffs = make([]string, 0)
-	diffs = make([]map[string]int, a.NbSequences()-1)
 	if a.NbSequences() < 2 {
+		// No sequence to compare to the first one (or no sequence at all)
+		diffs = make([]map[string]int, 0)
 		return
 	}
+	diffs = make([]map[string]int, a.NbSequences()-1)
 
 	alldiffsmap = make(map[string]bool)
 	i = 0
